@@ -96,6 +96,8 @@ class Explorer:
         for name, m in self.facts:
             r = m(c)
             if r is not None:
+                if isinstance(r, tuple):        # matcher names the fact itself: (name, polarity)
+                    name, r = r
                 if name in st['facts']:
                     return (st['facts'][name] == r) == pol
                 return ('fact', name, r == pol)
